@@ -80,3 +80,13 @@ check("C15",
       "path; absent/empty/newline-less lock omits nothing. The model and the property itself are compared with robsd-ls on generated roots in all five modes.",
       "Trusted: Lean kernel; d_type from readdir; qsort returns a sorted permutation; harness.",
       "DESIGN.md#c15")
+
+check("C10",
+      "Lean 4 proof: list identities over step tables regenerated from the source and the man pages (decide on generated tables); differential run of robsd-step -L and robsd-exec",
+      "Proof: Schedule models config_get_steps (default, regress expansion, canvas) and robsd-step -L [-o k]. Theorems: consecutive numbering from 1; "
+      "offset k yields exactly the suffix from step k and n+1 is rejected; per mode the code's fixed step names (first occurrences) equal the documented list of "
+      "the man page and end with `end`, every script named is installed by the Makefile (decide on generated tables); the regress block is parallel tests in "
+      "configuration order then the others, each as often as configured, none parallel when `parallel no` or flagged no-parallel; canvas = configured steps + end; "
+      "every listed name resolves. Model compared with robsd-step -L on generated configurations (ASan) and names resolved through robsd-exec.",
+      "Trusted: Lean kernel; translator (step tables, man page lists, Makefile SCRIPTS); config parsing of the generated files is the real parser's; harness.",
+      "DESIGN.md#c10")
